@@ -71,7 +71,7 @@ def run(prog: Program, rep: Report, tier: str):
                 f = C.call_of(prog, r.routine)
                 ok = f is not None and all(pth.exit[0] == "return" and pth.exit[1] == ("param", "val") for pth in P.paths_of(prog, f))
             rep.check(ok, "R15.2", f"{api}._HANDLERS", rows[0].loc, f"{pred} is routed to a {'pass-through' if wantnoop else 'dedicated'} routine", f"{pred} is not routed to a {'pass-through' if wantnoop else 'dedicated'} routine: unresolvable positions fail instead of passing through", detail=pred)
-        f = prog.function(f"{api}._get_unmarshaller")
+        f = C.dispatcher(prog, d)
         ps = P.paths_of(prog, f)
         total = all(p.exit[0] == "return" for p in ps)
         fb = C.fallback_routine(prog, d)
